@@ -7,6 +7,7 @@ import (
 	"errors"
 	"fmt"
 
+	"github.com/notaryproject/notation-core-go/signature"
 	vr "github.com/notaryproject/notation-go/internal/zzvr"
 	"github.com/notaryproject/notation-go/verifier/trustpolicy"
 	"github.com/opencontainers/go-digest"
@@ -182,10 +183,16 @@ func VsymC10() {
 			repo.listErr = true
 		}
 	}
-	repo.resolved = ocispec.Descriptor{MediaType: "application/vnd.oci.image.manifest.v1+json", Digest: digest.Digest(resolvedDigest), Size: 528}
+	repo.resolved = ocispec.Descriptor{MediaType: "application/vnd.oci.image.manifest.v1+json", Digest: digest.Digest(resolvedDigest), Size: 528,
+		Annotations: map[string]string{"resolved": "by the repository"}}
 	base := c10Verifier{repo: repo, argsOK: true, optsOK: true, ref: refs[refKind]}
 	for i := 0; i < L; i++ {
-		base.outcomes = append(base.outcomes, &VerificationOutcome{RawSignature: []byte{byte(i)}})
+		// an outcome as the library's verifier returns it: with the verified envelope content, whose signed target
+		// agrees with the artifact in media type, digest and size and carries annotations of its own
+		o := &VerificationOutcome{RawSignature: []byte{byte(i)}}
+		o.EnvelopeContent = &signature.EnvelopeContent{Payload: signature.Payload{ContentType: "application/vnd.cncf.notary.payload.v1+json",
+			Content: vr.JSONBytes(vr.JObj("targetArtifact", vr.JObj("mediaType", vr.JStr("application/vnd.oci.image.manifest.v1+json"), "digest", vr.JStr(resolvedDigest), "size", vr.JNum(528), "annotations", vr.JObj("signed", vr.JStr("metadata")))))}}
+		base.outcomes = append(base.outcomes, o)
 	}
 	var verifier Verifier
 	var bv *c10Verifier
@@ -264,6 +271,7 @@ func VsymC10() {
 	}
 	if err == nil {
 		vr.Assert(desc.Digest == repo.resolved.Digest && desc.Size == repo.resolved.Size && desc.MediaType == repo.resolved.MediaType, "success returns the resolved descriptor")
+		vr.Assert(len(desc.Annotations) == 1 && desc.Annotations["resolved"] == "by the repository" && desc.ArtifactType == repo.resolved.ArtifactType, "... as the repository resolved it, not as a signature describes it")
 		vr.Assert(len(outcomes) == 1 && outcomes[0] == bv.outcomes[k], "success returns exactly the outcome of the verifying signature")
 		vr.Assert(len(repo.fetchLog) == k+1 && len(bv.verifyLog) == k+1, "nothing fetched or evaluated after the first success")
 		vr.Reach("success")
